@@ -379,6 +379,41 @@ static void check_drawn(Ctx &c, const char *stage, size_t N, const std::vector<l
   }
 }
 
+// Several coordinates: the fraction stored for an end point of a drawn window has to put the line end inside the range of
+// EVERY coordinate applied. Per coordinate in which the end point is out of range (and its neighbour inside the window is in
+// range) the line crosses the boundary at fraction f_i, measured from the end point; the line end is inside all ranges from
+// max f_i on, and cutting more than that removes visible line. So: decoded fraction >= every f_i and == max f_i, both to one
+// 16-bit step (linepart::array::apply keeps the larger of the existing fraction and the one of the next coordinate).
+static void check_end_fractions(Ctx &c, const char *stage, int dims, const std::vector<double> *d, const Range *const *r, const std::vector<linepart> &parts) {
+  size_t off = 0;
+  const long double step = 1.0L / 65536 + 1e-9L;
+  for (size_t k = 0; k < parts.size(); k++) {
+    const linepart &lp = parts[k];
+    for (int end = 0; end < 2 && lp.usr >= 2; end++) {
+      size_t idx = end ? off + lp.usr - 1 : off, nb = end ? idx - 1 : idx + 1;
+      unsigned code = end ? lp._trim : lp._cut;
+      double dec = mpt_linepart_real((int)code);
+      long double F = -1;
+      int which = -1;
+      for (int i = 0; i < dims; i++) {
+        double out = d[i][idx], in = d[i][nb];
+        if (in_range(out, r[i]) || !in_range(in, r[i])) continue;
+        long double f = out < r[i]->min ? ((long double)r[i]->min - out) / ((long double)in - out) : ((long double)out - r[i]->max) / ((long double)out - in);
+        VP_CHECK(c, dec >= f - step, "line-end-outside-range",
+                 "%s part %zu at %zu {raw %u usr %u cut %u trim %u}: the %s fraction %.6f puts the line end outside the range of coordinate %d (its line from %.17g to %.17g crosses at %.6Lf)", stage, k,
+                 off, lp.raw, lp.usr, lp._cut, lp._trim, end ? "trim" : "cut", dec, i, out, in, f);
+        if (f > F) { F = f; which = i; }
+      }
+      if (which < 0) continue;
+      long double err = dec > F ? dec - F : F - dec;
+      VP_CHECK(c, err <= step, end ? "trim-fraction" : "cut-fraction", "%s part %zu at %zu {raw %u usr %u cut %u trim %u}: %s decodes to %.6f, the last crossing is that of coordinate %d at %.6Lf", stage,
+               k, off, lp.raw, lp.usr, lp._cut, lp._trim, end ? "trim" : "cut", dec, which, F);
+      c.label("fractions:multi-coordinate-end");
+    }
+    off += lp.raw;
+  }
+}
+
 // linepart::array::apply() dimension by dimension the way polyline::set does it; `preset`: start from set(N)
 // (polyline::set) or from an empty array
 static void apply_scenario(Ctx &c, int dims, const Range *const *ranges, const std::vector<double> *d, bool preset) {
@@ -406,6 +441,7 @@ static void apply_scenario(Ctx &c, int dims, const Range *const *ranges, const s
     if (i == 0) check_parts(c, "cxx-apply", d[0], tr.r[0], parts);
     for (size_t k = 0; k < N; k++) if (!in_range(d[i][k], tr.r[i])) visible[k] = 0;
     check_drawn(c, i ? "cxx-apply (2 dimensions)" : "cxx-apply", N, parts, visible);
+    if (i) check_end_fractions(c, "cxx-apply (2 dimensions)", i + 1, d, ranges, parts);
     c.count("cxx-apply:parts", parts.size());
     for (const linepart &lp : parts) if (lp._cut || lp._trim) { c.label("cxx-apply:crossing"); c.nontrivial(); break; }
     if (i) for (const linepart &lp : parts) if (lp.usr && lp.usr < lp.raw && lp._trim) { c.label("cxx-apply:2-dim-trim-before-skipped"); break; }
@@ -440,6 +476,22 @@ static void run_cxx_enum(Ctx &c) {
   std::vector<double> d[2];
   for (size_t i = 0; i < n; i++) { d[0].push_back(X[c.pick(3)]); d[1].push_back(Y[c.pick(2)]); }
   c.label("enum:cxx-apply-2-dim");
+  apply_scenario(c, 2, ranges, d, preset);
+  c.nontrivial();
+}
+
+// ---- enumerated: two coordinates whose values give different crossing fractions (both orders: the coordinate applied first
+// crosses later / earlier than the second), (x,y) sequences of length <= 3 (thorough 4), range [1,3] for both
+static void run_cxx_fracenum(Ctx &c) {
+  static const double X[5] = {-2, 0, 2, 4, 8};       // crossings towards 2: 0.75, 0.5, -, 0.5, 0.8333
+  static const double Y[5] = {-5, 0.5, 2, 3.5, 9};   //                      0.857, 0.333, -, 0.333, 0.857
+  Range rx(1, 3), ry(1, 3);
+  const Range *ranges[2] = {&rx, &ry};
+  bool preset = c.pick(2);
+  size_t n = c.pick(6);
+  std::vector<double> d[2];
+  for (size_t i = 0; i < n; i++) { d[0].push_back(X[c.pick(5)]); d[1].push_back(Y[c.pick(5)]); }
+  c.label("enum:cxx-apply-2-dim-fractions");
   apply_scenario(c, 2, ranges, d, preset);
   c.nontrivial();
 }
@@ -690,6 +742,10 @@ static void check_against(Ctx &c, const char *name, const DataSet &ds, int appli
   }
   if (single_run_oracle && applied == 1) check_parts(c, name, ds.d[0], ds.range(0), parts);
   check_drawn(c, name, ds.N(), parts, ds.visible(applied));
+  if (applied > 1) {
+    const Range *rr[2] = {ds.range(0), ds.range(1)};
+    check_end_fractions(c, name, applied, ds.d, rr, parts);
+  }
 }
 
 struct PolySlot {
@@ -932,6 +988,7 @@ static void run(Ctx &c) {
   if (sel == 0xfe) return run_longenum(c);
   if (sel == 0xfd) return run_cxx_enum(c);
   if (sel == 0xfc) return run_cxx_longenum(c);
+  if (sel == 0xfa) return run_cxx_fracenum(c);
   if (sel >= 236) return run_code(c);
   if (sel >= 216) return run_join_records(c);
   run_random(c);
@@ -977,6 +1034,17 @@ static void cxx2_make(uint64_t idx, int, std::vector<uint8_t> &out) {
 }
 
 // quick: N in {65535, 65537}, runs of 1 or 3 points (2 x 2 x 15 x 15); thorough: N 65534..65538, runs of 1..3 (2 x 5 x 22 x 22)
+static uint64_t frac_count(int tier) { uint64_t s = 0, p = 1; for (int i = 0; i <= (tier ? 4 : 3); i++) { s += p; p *= 25; } return 2 * s; }
+static void frac_make(uint64_t idx, int, std::vector<uint8_t> &out) {
+  out.clear();
+  out.push_back(0xfa);
+  out.push_back((uint8_t)(idx % 2)); idx /= 2;
+  size_t n = 0;
+  uint64_t span = 1;
+  while (idx >= span) { idx -= span; span *= 25; ++n; }
+  out.push_back((uint8_t)n);
+  for (size_t i = 0; i < n; i++) { out.push_back((uint8_t)(idx % 5)); out.push_back((uint8_t)((idx / 5) % 5)); idx /= 25; }
+}
 static uint64_t noparts_count(int) { return 20; }
 static void noparts_make(uint64_t idx, int, std::vector<uint8_t> &out) {
   out.clear();
@@ -1010,7 +1078,8 @@ static Target t = {
     "{below,at-min,inside,at-max,above} for [1,3]; the same up to length 6 (8) with 1..3 points per call; run lengths 65533..65537 x head/body/last-but-one/last over {below,inside,above}; "
     "linepart::array::apply for two coordinates ((x,y) sequences of length <= 6 (7) over {below,inside,above} x {inside,above}, from set(N) and from an empty array), where the points "
     "polyline::part::points() serves have to be exactly the points in range in every coordinate applied. "
-    "object histories: up to 16 steps of polyline::set (1-2 coordinates, also of different length, also around 65533/65535/131066 points) / clear / copy and linepart::array "
+    "two coordinates with different crossing fractions per coordinate ((x,y) sequences of length <= 3 (4) over 5 x 5 values), end fractions checked against the last crossing of "
+    "all coordinates; object histories: up to 16 steps of polyline::set (1-2 coordinates, also of different length, also around 65533/65535/131066 points) / clear / copy and linepart::array "
     "set(n) / apply / set(-1) / set(0) / copy on 3 polylines and 3 part arrays, every live object checked after every step against the data it was made for (parts, points "
     "served, point count, point values through the apply<>() template, terminating iteration); apply_data without part records. "
     "non-trivial: a part carries a cut or trim fraction, a join was accepted, the run is longer than 65535, a join hit the 16-bit limit, two fractions encode differently "
@@ -1024,6 +1093,7 @@ static Target t = {
      {"run lengths 65533..65537 x 81 head/body/tail patterns", long_count, long_make},
      {"two coordinates: (x,y) sequences len<=6 (7) over {below,inside,above}x{inside,above}, from set(N) and from an empty array", cxx2_count, cxx2_make},
      {"two coordinates around the chunk limit: N 65534..65538 (quick: 65535, 65537) x (no / one run of 1..3 (quick: 1 or 3) points outside from 65531..65537) per coordinate, from set(N) and from an empty array", cxx2long_count, cxx2long_make},
+     {"two coordinates with different crossing fractions: (x,y) sequences len<=3 (4) over 5 x 5 values, from set(N) and from an empty array", frac_count, frac_make},
      {"apply_data without part records: 10 point counts up to 3 x 65535 x 1..2 coordinates", noparts_count, noparts_make}},
     0,
     0,
